@@ -169,15 +169,22 @@ theorem fireOne_sim (sc : Scripts) {w : World} (hw : WheelInv w) (hs : Sim true 
       have hnotearly : ¬ ((toPend cop.c).due > vnow w) := by
         have := hw.cot_le
         simp only [toPend, vnow]; omega
-      have hj : judgeStep (jstate w.out) (.fire (vnow w) cop.c.owner cop.c.fn cop.c.tag) =
+      have hwant : liveGiverJ (jstate w.out) (toPend cop.c).giver = liveGiver w cop.c.giver := by
+        unfold liveGiver liveGiverJ toPend
+        cases cop.c.giver with
+        | none => rfl
+        | some g => simp only [isDeadJ_eq hs]
+      have hj : judgeStep (jstate w.out) (.fire (vnow w) cop.c.owner cop.c.fn cop.c.tag (liveGiver w cop.c.giver)) =
           { jstate w.out with pend := rest' } := by
-        simp only [judgeStep, hs.inTick, if_true, hmin, hnotearly, if_false, isDeadJ_eq hs, hdead', hro,
-          Bool.false_eq_true]
-      have hs1 : Sim true (emit (setSlot w (slotOf w.cot) rest) (.fire (vnow w) cop.c.owner cop.c.fn cop.c.tag)) := by
+        simp only [judgeStep, hs.inTick, if_true, hmin, hnotearly, if_false, hwant, isDeadJ_eq hs, hdead', hro,
+          Bool.false_eq_true, beq_self_eq_true]
+      have hs1 : Sim true (emit { setSlot w (slotOf w.cot) rest with giver := liveGiver w cop.c.giver }
+          (.fire (vnow w) cop.c.owner cop.c.fn cop.c.tag (liveGiver w cop.c.giver))) := by
         refine Sim.emit (w := w) rfl ?_
         rw [hj]
-        exact SimJ.remove_pair hw hs hcum (by simp) hro
-      exact runOps_sim (w := emit (setSlot w (slotOf w.cot) rest) (.fire (vnow w) cop.c.owner cop.c.fn cop.c.tag))
+        exact (SimJ.remove_pair hw hs hcum (by simp) hro).congr rfl rfl rfl rfl rfl
+      exact runOps_sim (w := emit { setSlot w (slotOf w.cot) rest with giver := liveGiver w cop.c.giver }
+          (.fire (vnow w) cop.c.owner cop.c.fn cop.c.tag (liveGiver w cop.c.giver)))
         (h1.inv.congr rfl rfl rfl rfl) hs1 _ _ hdead'
 
 theorem visit_sim (sc : Scripts) (tm : Nat) : ∀ (fuel : Nat) (w : World), WheelInv w → w.cot ≠ 0 →
@@ -259,9 +266,9 @@ theorem sweepLoop_sim (sc : Scripts) : ∀ (fuel : Nat) (w : World), WheelInv w 
       exact ih _ a b (by rw [c]; omega) (sweepSecond_sim sc h hq hlt hs)
     · rw [if_neg (by simpa using hlt)]; exact hs
 
-theorem sweep_sim (sc : Scripts) {w : World} (h : WheelInv w) (hq : Quiet w) (hs : Sim true w) :
-    Sim true (sweep sc w) := by
-  unfold sweep
+theorem sweepCore_sim (sc : Scripts) {w : World} (h : WheelInv w) (hq : Quiet w) (hs : Sim true w) :
+    Sim true (sweepCore sc w) := by
+  unfold sweepCore
   by_cases h0 : w.cot = 0
   · simp only [h0, if_true]
     have hi : WheelInv { w with cot := w.now } := by
@@ -282,5 +289,10 @@ theorem sweep_sim (sc : Scripts) {w : World} (h : WheelInv w) (hq : Quiet w) (hs
     exact sweepLoop_sim sc _ _ hi hq (by have := h.now_pos; show w.now ≠ 0; omega) hs'
   · simp only [h0, if_false]
     exact sweepLoop_sim sc _ _ h hq h0 hs
+
+theorem sweep_sim (sc : Scripts) {w : World} (h : WheelInv w) (hq : Quiet w) (hs : Sim true w) :
+    Sim true (sweep sc w) := by
+  rw [sweep_eq]
+  exact SimJ.congr (w := sweepCore sc w) (sweepCore_sim sc h hq hs) rfl rfl rfl rfl rfl
 
 end NV.C10
